@@ -271,6 +271,50 @@ def txlevel_worker(job):
     return part.dump()
 
 
+def binary_worker(job):
+    """the plain-script cells of the matrix through the real binary: `btcdeb [-f...] <script> <stack...>`, non-interactive"""
+    bindir, idx, nchunks = job
+    from vf import proc
+    from checks import c03, c08
+    part = Partial()
+    wd = scratch('c10b')
+    btcdeb = os.path.join(bindir, 'btcdeb')
+    try:
+        cells = [c for c in boundary_cases() if c['sv'] == BASE and not c.get('succ') and not is_p2sh(c['script'])]
+        for i, c in enumerate(cells):
+            if i % nchunks != idx:
+                continue
+            args = []
+            fs = c03.flagstr(c['flags'])
+            if fs:
+                args.append('--modify-flags=' + fs)
+            args += ['0x' + c['script'].hex()] + ['0x' + x.hex() for x in c['stack']]
+            if sum(len(a) + 1 for a in args) > 120000:
+                continue
+            want = c08.ref_run(c['script'], c['stack'], c['flags'], BASE)
+            r = proc.run([btcdeb] + args, wd, mode='ptyin', timeout=60)
+            part.evaluations += 1
+            part.count('binary_cells', c['cell'].split('/')[0])
+            wit = dict(cell=c['cell'], script=c['script'].hex()[:3000], stack_items=len(c['stack']), flags=c['flags'], via='btcdeb binary', reference=want[0] if want[0] != 'fail' else want[1],
+                       run={k: v for k, v in r.brief().items() if k in ('rc', 'sig', 'timeout', 'stderr', 'sanlog')})
+            cellkey = '/'.join(c['cell'].split('/')[:1] + c['cell'].split('/')[-2:-1])
+            if r.abnormal:
+                part.violation('%s:binary:%s' % (cellkey, r.crash_key('btcdeb')), wit)
+                continue
+            if want[0] == 'ok':
+                if r.rc != 0 or r.stdout.decode('latin1') != c08.expected_stdout(want[1]):
+                    part.violation('%s:binary:rejects-or-misprints-a-script-within-the-limits' % cellkey, wit)
+                    continue
+            else:
+                if r.rc == 0:
+                    part.violation('%s:binary:accepts-a-script-beyond-the-limit' % cellkey, wit)
+                    continue
+            part.nontrivial.add(nt_hash('bin', c['script'], tuple(c['stack']), c['flags']))
+    finally:
+        cleanup_scratch(wd)
+    return part.dump()
+
+
 def main():
     ap = argparse.ArgumentParser()
     ap.add_argument('--tier', default=os.environ.get('VERIF_TIER', 'quick'))
@@ -287,6 +331,8 @@ def main():
         jobs += [(bindir, 'perturb', i, 60) for i in range(16)]
     for r in parallel(worker, jobs):
         rep.merge(r)
+    for r in parallel(binary_worker, [(bindir, i, 16) for i in range(16)]):
+        rep.merge(r)
     for r in parallel(txlevel_worker, [(bindir, i) for i in range(2 if a.tier == 'quick' else 16)]):
         rep.merge(r)
     steps = rep.tables.get('step_events', {}).get('n', 0)
@@ -296,7 +342,7 @@ def main():
         rule='deterministic matrix limit x way-of-reaching x {L-1,L,L+1} x {base,v0,tapscript} (520-byte pushes, 1000 stack+altstack items, 201 counted ops incl. multisig key counts '
              'and unexecuted branches and across scriptSig/scriptPubKey, 20 multisig keys, 10,000-byte scripts also as scriptPubKey, 4-byte numeric and 5-byte lock-time operands; the 1000-element initial stack of real tapscript spends with and without annex) plus seeded random perturbations around each boundary; '
              'a quarter of the cases is run a second time "hovering" (every step taken, taken back, taken again) and must give the same trace; '
-             'every case is judged step by step against the reference interpreter; non-trivial = distinct case (all of them sit on or next to a limit)',
+             'every case is judged step by step against the reference interpreter; the legacy plain-script cells also run through the real binary (non-interactive: exit status and printed final stack); non-trivial = distinct case (all of them sit on or next to a limit)',
         assumptions=['ref/script.py encodes the consensus limits; lock-time success paths (needing a transaction) are exercised by C02/C03'],
         extra={'step_events_compared': steps}, min_events=500, observed=steps)
 
